@@ -32,8 +32,16 @@ const (
 
 type engine struct{}
 
+//go:norace
 func (engine) Name() string { return "bsp" }
 
+// RaceProps: a quarter of the workers run the race-detector build of this engine (DESIGN.md §2.11); a data
+// race between two accesses of the code under test is reported under these properties.
+//
+//go:norace
+func (engine) RaceProps() []string { return []string{"C01"} }
+
+//go:norace
 func TestWorker(t *testing.T) { simdrv.Worker(t, engine{}) }
 
 type spanInfo struct {
@@ -85,6 +93,7 @@ type world struct {
 
 type sampler struct{}
 
+//go:norace
 func (sampler) ShouldSample(p sdktrace.SamplingParameters) sdktrace.SamplingResult {
 	ts := trace.SpanContextFromContext(p.ParentContext).TraceState()
 	switch {
@@ -95,10 +104,13 @@ func (sampler) ShouldSample(p sdktrace.SamplingParameters) sdktrace.SamplingResu
 	}
 	return sdktrace.SamplingResult{Decision: sdktrace.Drop, Tracestate: ts}
 }
+
+//go:norace
 func (sampler) Description() string { return "by-name" }
 
 type exporter struct{ w *world }
 
+//go:norace
 func (x *exporter) ExportSpans(ctx context.Context, spans []sdktrace.ReadOnlySpan) error {
 	w := x.w
 	c := &exportCall{beg: w.sim.Stamp(), task: w.sim.CurrentTask()}
@@ -143,6 +155,7 @@ func (x *exporter) ExportSpans(ctx context.Context, spans []sdktrace.ReadOnlySpa
 	return err
 }
 
+//go:norace
 func (x *exporter) Shutdown(ctx context.Context) error {
 	w := x.w
 	w.sdCalls++
@@ -161,6 +174,8 @@ func (x *exporter) Shutdown(ctx context.Context) error {
 var errInjected = errors.New("injected exporter error")
 
 // behave plays one tape-chosen exporter behaviour.
+//
+//go:norace
 func (w *world) behave(ctx context.Context, what string) error {
 	if !w.faulty {
 		if w.sim.Draw(4) == 1 {
@@ -205,6 +220,7 @@ func (w *world) behave(ctx context.Context, what string) error {
 	}
 }
 
+//go:norace
 func sleepCtx(ctx context.Context, d time.Duration) error {
 	simrt.Yield(ptExpWait)
 	tm := time.NewTimer(d)
@@ -219,6 +235,7 @@ func sleepCtx(ctx context.Context, d time.Duration) error {
 	return err
 }
 
+//go:norace
 func (w *world) mkctx(kind int, d time.Duration) (context.Context, context.CancelFunc, string) {
 	switch kind {
 	case 1:
@@ -237,6 +254,7 @@ type step struct {
 	name  string
 }
 
+//go:norace
 func (engine) Body(r *simdrv.Run) {
 	w := &world{r: r, spans: map[string]*spanInfo{}}
 	times := []time.Duration{time.Millisecond, 10 * time.Millisecond, time.Second, 5 * time.Second, 30 * time.Second}
@@ -446,6 +464,7 @@ func (engine) Body(r *simdrv.Run) {
 	w.oracle(dropped, haveDropped)
 }
 
+//go:norace
 func (w *world) firstShutdownInv() uint64 {
 	var f uint64
 	for _, op := range w.ops {
@@ -456,6 +475,7 @@ func (w *world) firstShutdownInv() uint64 {
 	return f
 }
 
+//go:norace
 func (w *world) pendingOps() []string {
 	var out []string
 	for _, n := range w.order {
@@ -471,6 +491,7 @@ func (w *world) pendingOps() []string {
 	return out
 }
 
+//go:norace
 func readDropped(sp sdktrace.SpanProcessor) (uint32, bool) {
 	v := reflect.ValueOf(sp)
 	if v.Kind() != reflect.Pointer || v.Elem().Kind() != reflect.Struct {
@@ -483,6 +504,7 @@ func readDropped(sp sdktrace.SpanProcessor) (uint32, bool) {
 	return uint32(f.Uint()), true
 }
 
+//go:norace
 func (w *world) oracle(dropped uint32, haveDropped bool) {
 	r := w.r
 	firstSd := w.firstShutdownInv()
@@ -633,6 +655,7 @@ func (w *world) oracle(dropped uint32, haveDropped bool) {
 	}
 }
 
+//go:norace
 func (w *world) pendingEnds() int {
 	n := 0
 	for _, name := range w.order {
@@ -643,6 +666,7 @@ func (w *world) pendingEnds() int {
 	return n
 }
 
+//go:norace
 func keys(m map[string]bool) []string {
 	var out []string
 	for k := range m {
